@@ -21,9 +21,15 @@ import numpy as np
 from . import common
 
 PROP = "C12"
-GENERATED = ["errors"]
-LEAN_MODULES = ["MiciVerif.Props.C12", "MiciVerif.Props.C12T"]
+GENERATED = ["errors", "solver_loops"]
+LEAN_MODULES = ["MiciVerif.Props.C12", "MiciVerif.Props.C12T", "MiciVerif.Props.C12S"]
 LEAN_EXTRA = ["MiciVerif.Model.Solvers", "MiciVerif.Proto", "MiciVerif.Generated.Errors"]
+# >>> builder B8: source-skeleton tie of transitions.py / Integrator.step (tools/extractors/transition_skeleton.py ->
+# Generated/TransitionSkeleton.lean; theorems in Props/C12K.lean).  A broken C12K obligation makes `escalated(ctx)`
+# true like any other broken obligation (exhaustive fault plan).
+GENERATED = [*GENERATED, "transition_skeleton"]
+LEAN_MODULES = [*LEAN_MODULES, "MiciVerif.Props.C12K"]
+# <<< builder B8
 
 
 class Foreign(Exception):
@@ -41,7 +47,7 @@ def fp_section(ctx, rng):
     reqs, metas = [], []
     a_vals = [Fraction(1, 2), Fraction(-1, 2), Fraction(1, 4), Fraction(3, 4), Fraction(1), Fraction(2), Fraction(-2), Fraction(0)]
     kinds = ["none", "nan", "pinf", "ninf", "value", "linalg", "milinalg", "foreign"]
-    for _ in range(ctx.n(400, 4000)):
+    for _ in range(4000 if escalated(ctx) else ctx.n(400, 4000)):
         meth = "direct" if rng.random() < 0.5 else "steff"
         a = a_vals[int(rng.integers(len(a_vals)))]
         b = Fraction(int(rng.integers(-8, 9)), 4)
@@ -274,6 +280,13 @@ def run_chain(cfg, tname, target, k, kind, seed, n_iter=3):
                 if math.isnan(hval) or hval == math.inf:
                     problems.append(f"iteration {it}: moved to a state of energy {hval}")
             err_flag = bool(stats.get("convergence_error") or stats.get("non_reversible_step") or stats.get("diverging"))
+            # >>> builder B8: a Metropolis trajectory that met an integrator error is a rejection (Props/C12.lean
+            # `metropolis_contained`, Props/C12K.lean `sem_metropolis_contained`): the chain must not have moved
+            if tname in ("static", "random") and moved and (
+                    err_flag or (tname == "static" and stats.get("n_step") is not None and stats["n_step"] < 3)):
+                problems.append(f"iteration {it}: Metropolis transition moved although its trajectory failed "
+                                f"(n_step={stats.get('n_step')}, flags={err_flag}, accept_stat={stats.get('accept_stat')})")
+            # <<< builder B8
             if inj.fired == it and flagged_iter is None:
                 flagged_iter = it
                 if kind in ("value", "linalg", "milinalg") and not (stats.get("convergence_error") or stats.get("non_reversible_step")):
@@ -290,9 +303,25 @@ VALUE_KINDS = ["nan", "pinf", "ninf"]
 EXC_KINDS = ["value", "linalg", "milinalg"]
 
 
+def proj_translation_changed() -> bool:
+    """The projection solvers' bodies as translated from the tree under test (Generated/SolverLoopsProj.lean,
+    regenerated by this run; their proof obligations are C04S's) differ from the clean-tree translation."""
+    try:
+        g = (common.LEAN / "MiciVerif" / "Generated" / "SolverLoopsProj.lean").read_text()
+        e = (common.LEAN / "MiciVerif" / "Generated.expected" / "SolverLoopsProj.lean").read_text()
+    except OSError:
+        return True
+    return g != e
+
+
+def escalated(ctx) -> bool:
+    # a broken proof obligation (C12, C12T tables, C12S `src_*_eq_model`) or a changed translation of a projection
+    # solver escalates the failing-input search to the exhaustive plan
+    return (not ctx.build_ok) or any(not o["ok"] for o in ctx.obligations) or proj_translation_changed()
+
+
 def chain_section(ctx, rng):
-    # a broken proof obligation escalates the failing-input search to the exhaustive plan
-    escalate = (not ctx.build_ok) or any(not o["ok"] for o in ctx.obligations)
+    escalate = escalated(ctx)
     if escalate:
         ctx.count("search_escalated_to_exhaustive")
     plan = []
@@ -408,6 +437,72 @@ def sampler_section(ctx, rng):
             ctx.violation(f"containment sampler {cfg} {hmc} {kind}", f"non-finite positions recorded ({case})", case)
 
 
+# >>> builder B8: faults in the energy evaluation of a TRIAL state (`IntegrationTransition._h_trial_state`; Props/C12K.lean
+# `skel_h_trial_state_maps_errors_to_nan`, `skel_trial_energies_use_h_trial_state`; revert C12-trial-energy-escape)
+def run_trial_energy(tname, kind, k, seed, n_iter=2):
+    """`system.h` raises ValueError / numpy LinAlgError / mici LinAlgError at its k-th call on a state other than the
+    chain's current one (real Euclidean system + leapfrog).  Returns (problems, fired)."""
+    import mici
+
+    inj = Injector()
+    system, integ, init, _ = make_config("euclid-leapfrog", inj)
+    trans = make_transition(tname, system, integ)
+    r = np.random.default_rng(seed)
+    state = init()
+    state.mom = system.sample_momentum(state, r)
+    real_h = system.h
+    cur = {"pos": None, "n": 0, "fired": False}
+
+    def h(st):
+        if not np.array_equal(st.pos, cur["pos"]):
+            c = cur["n"]
+            cur["n"] += 1
+            if c == k:
+                cur["fired"] = True
+                if kind == "value":
+                    raise ValueError("injected")
+                if kind == "linalg":
+                    raise np.linalg.LinAlgError("injected")
+                raise mici.errors.LinAlgError("injected")
+        return real_h(st)
+
+    system.h = h
+    problems = []
+    with np.errstate(all="ignore"):
+        for it in range(n_iter):
+            cur["pos"] = np.array(state.pos)
+            try:
+                state, _stats = trans.sample(state, r)
+            except Exception as e:  # noqa: BLE001
+                problems.append(f"iteration {it}: {type(e).__name__} raised by the energy of a trial state escaped transition.sample ({e})")
+                break
+            if not (np.all(np.isfinite(state.pos)) and np.all(np.isfinite(state.mom))):
+                problems.append(f"iteration {it}: chain state not finite: pos={state.pos} mom={state.mom}")
+                break
+            if not np.array_equal(state.pos, cur["pos"]):
+                hval = float(real_h(state))
+                if math.isnan(hval) or hval == math.inf:
+                    problems.append(f"iteration {it}: moved to a state of energy {hval}")
+    return problems, cur["fired"]
+
+
+def trial_energy_section(ctx, rng):
+    for tname in TRANS:
+        for kind in EXC_KINDS:
+            for k in range(0, 8 if escalated(ctx) or not ctx.quick else 3):
+                case = {"transition": tname, "fault": kind, "k": k, "seed": ctx.seed, "kind": "trial-energy"}
+                try:
+                    problems, fired = run_trial_energy(tname, kind, k, ctx.seed)
+                except Exception as e:  # noqa: BLE001
+                    ctx.disagreement(f"trial-energy fault run crashed in harness/impl setup: {type(e).__name__}: {e}", case)
+                    continue
+                ctx.case(case, nontrivial=fired)
+                ctx.count(f"trial-energy:{tname}:{'fired' if fired else 'not-reached'}")
+                for pr in problems[:1]:
+                    ctx.violation(f"containment trial energy {tname} {kind}", f"{pr} ({case})", case)
+# <<< builder B8
+
+
 def run(ctx: common.Ctx):
     rng = common.rng_for(ctx)
     ctx.rule = (
@@ -425,6 +520,7 @@ def run(ctx: common.Ctx):
     solver_direct_section(ctx, rng)
     chain_section(ctx, rng)
     sampler_section(ctx, rng)
+    trial_energy_section(ctx, rng)  # builder B8
 
 
 def replay(ctx, obj):
@@ -432,6 +528,9 @@ def replay(ctx, obj):
         sub = common.Ctx(ctx.prop, "thorough", obj["seed"])
         sampler_section(sub, common.rng_for(sub))
         return bool(sub.violations)
+    if obj.get("kind") == "trial-energy":  # builder B8
+        problems, _ = run_trial_energy(obj["transition"], obj["fault"], obj["k"], obj["seed"])
+        return bool(problems)
     if obj.get("kind") == "chain":
         problems, _ = run_chain(obj["config"], obj["transition"], obj["target"], obj["k"], obj["fault"], obj["seed"])
         return bool(problems)
@@ -452,15 +551,45 @@ LEVEL_TEXT = (
     "IntegratorError (transition_steps_protected), the raised error classes are IntegratorErrors; (2) for every iterate "
     "type, fault script, norm, tolerances and iteration limit the fixed-point solvers return only a point at which the "
     "stopping test held or raise ConvergenceError, foreign exceptions escape only if the user function raised one "
-    "(direct_sound, direct_no_foreign, steffensen_sound, steffensen_no_foreign); (3) on the orbit-level transition model "
+    "(direct_sound, direct_no_foreign, steffensen_sound, steffensen_no_foreign); (2b) the BODIES of the two fixed-point "
+    "solvers are translated from the source on every run into fuel-recursive Lean definitions (Generated/SolverLoops.lean: "
+    "try/for/except skeleton, handler generated from the except tuple, call numbering, IEEE comparison operators) and proved "
+    "equal to the hand model for every parameter instantiation, fuel and fault script (src_direct_eq_model, "
+    "src_steffensen_eq_model, max_iters >= 1; src_*_zero_iters: with max_iters = 0 the code raises UnboundLocalError), and "
+    "(2) is transported to the generated definitions (src_direct_sound, src_direct_no_foreign, src_steffensen_sound, "
+    "src_steffensen_no_foreign); (3) on the orbit-level transition model "
     "(C01) a state returned with positive probability is the start or a point of strictly positive weight, for every "
     "tree and fault pattern (final_contained, metropolis_contained). Fault enumeration on the real code over call index "
     "× fault kind × configuration checks containment, finiteness, flags and continuation directly."
 )
 LEVEL_NOTE = (
-    "Trusted: Lean kernel, axioms {propext, Classical.choice, Quot.sound}; the AST extractor (fail-closed flags); the "
+    "Trusted: Lean kernel, axioms {propext, Classical.choice, Quot.sound}; the AST extractors (fail-closed flags; the "
+    "solver-loop translator's conventions: exceptions only from user/system calls, messages not evaluated, Steffensen's "
+    "update formula matched textually and abstracted as the parameter `upd`); the "
     "lexical notion of protection (a call inside the try body); orbit abstraction of C01; harness. The projection solvers' "
     "loop post-conditions are C04's theorems; here they are covered by the table obligations and by direct fault "
     "injection. Errors raised by the density/gradient outside an iterative solve are outside the property."
 )
-TECHNIQUE = "Lean 4 theorems + decide on AST-extracted protection tables + fault enumeration against the real transitions/solvers"
+TECHNIQUE = ("Lean 4 theorems + decide on AST-extracted protection tables + solver bodies translated from the source and proved "
+             "equal to the model + fault enumeration against the real transitions/solvers")
+
+# >>> builder B8: source-skeleton tie
+LEVEL_TEXT += (
+    " Source tie of the transitions (Props/C12K.lean, re-checked against Generated/TransitionSkeleton.lean regenerated "
+    "from transitions.py / integrators.py on every run): the statement trees of _process_integrator_error, "
+    "_h_trial_state, Integrator.step, _sample_n_step and _build_tree equal the annotated expected trees; named "
+    "projections from the generated trees: _h_trial_state maps ValueError/LinAlgError to NaN and every trial energy "
+    "goes through it, the integrator steps (and in _build_tree the energy, leaf creation and divergence test) are inside "
+    "try/except IntegratorError whose handler records the error and returns no tree and no proposal, a NaN energy gets "
+    "weight 0, only the matching declared flag is set and only declared statistics are written, a failed trajectory is "
+    "never accepted (accept test and accept_stat guarded by `not integration_error`), a terminated _build_tree discards "
+    "its sub-tree, Integrator.step converts ValueError/LinAlgError; sem_metropolis_contained: the reading of the "
+    "generated _sample_n_step on any orbit returns with positive probability only the start or a point of non-zero "
+    "weight, and after a failing step the start with certainty (n_step = steps taken, accept_stat 0, error recorded); "
+    "sem_dynamic_contained: the reading of the generated loop of DynamicIntegrationTransition.sample on any trajectory "
+    "tree (the _build_tree calls read from the generated body of _build_tree: one try around step, energy, leaf and "
+    "divergence test, handler returning no tree) returns only the start or a point of "
+    "positive weight. Added oracles on the real code: a Metropolis transition whose trajectory failed must not move; "
+    "ValueError / numpy / mici LinAlgError raised by system.h at a trial state must not escape any transition."
+)
+# <<< builder B8
